@@ -6,6 +6,7 @@ thread start / join / end) and every device call is a yield point where a
 seeded chooser decides who continues.  Deadlock (no enabled thread) is detected
 exactly; livelock as a bound on logical steps.  Nothing here looks at a clock.
 """
+import os
 import struct
 import sys
 import threading
@@ -595,8 +596,8 @@ class Harness(object):
     return None
 
   def _budget_tracer(self, frame, event, arg):
-    if event == "call" and frame.f_code.co_filename.endswith(
-        ("lazy_io.py", "lazy_stream.py")):
+    if event == "call" and os.sep + "audiolazy" + os.sep in \
+       frame.f_code.co_filename:
       return self._budget_local
     return None
 
